@@ -162,6 +162,10 @@ class SelectorWorld:
         if isinstance(v, dict):
             if "$ndarray" in v:
                 return np.array(v["$ndarray"], dtype=int)
+            if "$npint" in v:
+                return getattr(np, v.get("dtype", "int64"))(v["$npint"])
+            if "$npfloat" in v:
+                return getattr(np, v.get("dtype", "float64"))(v["$npfloat"])
             if "$prefix_of" in v:
                 src = self.objs.get(v["$prefix_of"])
                 try:
